@@ -92,6 +92,9 @@ func (h *harness) ecShortRS() {
 					sb := rng.Bytes(ci.size)
 					if z0 >= 1000 {
 						c := z0 - 1000 - len(derInt(r)) - 2 // content bytes of INTEGER s, no padding byte
+						if c < 1 || c > ci.size-1 {
+							continue // r itself is unusually short: the target is out of reach for this draw
+						}
 						z0 = ci.size - c
 						sb[z0] = sb[z0]&0x7f | 1
 					}
